@@ -8,11 +8,22 @@ the driver (canonical format, dimensions, every entry from the arrays and throug
 import itertools
 import vlib
 
-PROOF_MODULES = ["C25/CsrProofs.vo", "C25/CsrProofs2.vo", "C25/CsrProofs3.vo", "C25/CsrProofs4.vo"]
+PROOF_MODULES = ["C25/CsrInst.vo", "C25/CsrTranspose.vo", "C25/CsrFromCoo.vo", "C25/CsrMatmat.vo"]
 OBLIGATIONS = [
-    "C25/P_get_spec.v", "C25/P_set_spec.v", "C25/P_history_spec.v", "C25/P_is_canonical_spec.v",
-    "C25/P_from_coo_spec.v", "C25/P_binop_spec.v", "C25/P_transpose_spec.v", "C25/P_scale_spec.v",
-    "C25/P_jacobian_spec.v", "C25/P_conjugate.v", "C25/P_diagonal.v", "C25/P_matmat.v",
+    # get / set / histories
+    "C25/P_get_spec.v", "C25/P_set_spec.v", "C25/P_history_spec.v", "C25/P_history_from_zero.v",
+    # the canonical-format checkers
+    "C25/P_has_canonical_format_spec.v", "C25/P_is_canonical_complete.v", "C25/P_is_canonical_sound_guarded.v",
+    "C25/P_is_canonical_sound_refuted.v",
+    # construction from coordinate lists
+    "C25/P_from_coo_spec.v", "C25/P_sort_indices_spec.v", "C25/P_sum_duplicates_spec.v",
+    # operations
+    "C25/P_binop_spec.v", "C25/P_transpose_spec.v", "C25/P_scale_rows_spec.v", "C25/P_scale_rows_zero.v",
+    "C25/P_scale_columns_spec.v", "C25/P_jacobian_spec.v",
+    # operations where the transcribed code does not have the property: refutation + guarded theorem
+    "C25/P_conjugate_refuted.v", "C25/P_conjugate_guarded.v", "C25/P_conjugate_entries.v",
+    "C25/P_diagonal_refuted.v", "C25/P_diagonal_guarded.v",
+    "C25/P_matmat_refuted.v", "C25/P_matmat_guarded.v",
     "C25/P_nonvacuous.v",
 ]
 
@@ -335,16 +346,22 @@ def nontrivial_from_output(m):
 
 
 def run(ctx):
+    import time
+    t0 = time.time()
     ctx.gate(["Base", "C25"])
     ctx.prove(PROOF_MODULES if proofs_in_project() else [], OBLIGATIONS)
+    t1 = time.time()
     drv = ctx.build_driver("c25_driver")
     model = ctx.build_model("C25", "C25/Extract.v", "c25_main.ml", "csr_model")
-    ncases = 1500 if ctx.tier == "quick" else 30000
+    t2 = time.time()
+    ncases = 2500 if ctx.tier == "quick" else 40000
     cases = list(CORPUS) + exhaustive_small(ctx.tier) + [gen_line(ctx.rng, ctx.tier) for _ in range(ncases)]
     explore(ctx, drv, model, cases)
     if ctx.broken and not new_violation_found(ctx):
         extra = [gen_line(ctx.rng, "thorough") for _ in range(6000)]
         explore(ctx, drv, model, extra, search=True)
+    t3 = time.time()
+    ctx.notes.append("phases: proofs %.0fs, builds %.0fs, exploration %.0fs" % (t1 - t0, t2 - t1, t3 - t2))
     ctx.cov["rule"] = (
         "programs over CSR registers from one PRNG plus a fixed corpus and exhaustive small universes (all set-histories of "
         "length 3 with values {0,4} on a 1x3 (quick) / 2x3 (thorough) matrix with a full read-out; all pairs of 1x3 sparsity "
@@ -367,7 +384,7 @@ def run(ctx):
 
 def proofs_in_project():
     try:
-        return "C25/CsrProofs.v" in open(vlib.COQ + "/_CoqProject").read()
+        return "C25/CsrInst.v" in open(vlib.COQ + "/_CoqProject").read()
     except OSError:
         return False
 
